@@ -442,6 +442,10 @@ class Kernel:
             if m == "add_scalar":
                 return ("op", "+", ("whole", recv), a)
             return ("op", NA_VAL[m], ("whole", recv), ("whole", a))
+        if m.startswith("copy_into") and len(args) == 2:
+            # CopyMat::copy_into*(dst, offset) -> number of elements / rows copied
+            self.emit(("whole", args[0]), ("copy", m, recv, args[1]), kind="copy")
+            return ("copied", recv)
         if m in ("index", "get_unchecked", "index_mut") and len(args) == 1:
             return self.index(recv, args[0])
         if m in ("column", "column_mut") and len(args) == 1:
